@@ -210,4 +210,11 @@ func transferMakeTx(salt, num, idx uint64, tx *simnode.Tx) {
 		l.Topics = [][]byte{sig, padAddr(simnode.Derive("from", salt, num, idx)[:20]), padAddr(simnode.Derive("to", salt, num, idx)[:20])}
 		l.Data = simnode.Derive("val", salt, num, idx)
 	}
+	if len(tx.Logs) > 1 {
+		// the second log of every transaction is an ERC-20 Approval: an integration on it shares the
+		// transaction (and the cached block) with the Transfer integrations but has a different filter
+		l := &tx.Logs[1]
+		l.Topics = [][]byte{approvalEvent.SignatureHash(), padAddr(simnode.Derive("owner", salt, num, idx)[:20]), padAddr(simnode.Derive("spender", salt, num, idx)[:20])}
+		l.Data = simnode.Derive("aval", salt, num, idx)
+	}
 }
